@@ -379,7 +379,7 @@ fn setup_spec() -> impl Strategy<Value = OpSpec> {
 }
 
 pub fn run(c: &Ctx) {
-    c.set_rule("states: proptest-generated Memfs states over a 3-name namespace (dirs, files with small contents, links to dirs/files/links/missing targets) built from 2..10 creating calls; for EVERY state: every macro (11 checking, 8 acting; write_all also with a non-UTF-8 payload, mkdir_m also with a sticky-bit mode) x every path of the namespace that exists, a missing child, a missing-parent path and the empty string (pairs: copyfile/symlink with a second path; read_all/write_all with matching and different data; readlink/readlink_abs with the right text, a wrong one and a proper-suffix of the right one), each invocation on a freshly rebuilt state under catch_unwind; Memfs always, a seeded part on a tmpfs Stdfs sandbox materialised with std::fs. Oracle: checking macros panic <=> the reference predicate over the pre-state is false and leave the state alone; acting macros: never 'no panic and postcondition false', never 'panic although postcondition holds', never a panic of a creating macro on an unobstructed path (symlink: a new link points where vfs.symlink(link, target) points, also for targets relative to the link's directory; an existing link is untouched); every panic message names the macro and shows the resolved path. testing::capture_panic returns panic messages of 0..70 000 bytes (ASCII and multi-byte) unaltered. Non-trivial = invocation on an existing entry of another kind than the macro asks for, a link, or a near-miss second argument; distinct by (state, macro, arguments).");
+    c.set_rule("states: proptest-generated Memfs states over a 3-name namespace (dirs, files with small contents, links to dirs/files/links/missing targets) built from 2..10 creating calls; for EVERY state: every macro (11 checking, 8 acting; write_all also with a non-UTF-8 payload, mkdir_m also with a sticky-bit mode) x every path of the namespace that exists, a missing child, a missing-parent path, three unclean absolute spellings ('zz/..' detours to a creatable path, to a missing child and to an existing entry) and the empty string (pairs: copyfile/symlink with a second path; read_all/write_all with matching and different data; readlink/readlink_abs with the right text, a wrong one and a proper-suffix of the right one), each invocation on a freshly rebuilt state under catch_unwind; Memfs always, a seeded part on a tmpfs Stdfs sandbox materialised with std::fs. Oracle: checking macros panic <=> the reference predicate over the pre-state is false and leave the state alone; acting macros: never 'no panic and postcondition false', never 'panic although postcondition holds', never a panic of a creating macro on an unobstructed path (symlink: a new link points where vfs.symlink(link, target) points, also for targets relative to the link's directory; an existing link is untouched); every panic message names the macro and shows the resolved path. testing::capture_panic returns panic messages of 0..70 000 bytes (ASCII and multi-byte) unaltered. Non-trivial = invocation on an existing entry of another kind than the macro asks for, a link, or a near-miss second argument; distinct by (state, macro, arguments).");
     c.assume("no_dir!/no_file! on an existing entry of another kind: pass or panic both admitted (docs and code disagree); copyfile! into an existing directory: not asserted");
     let n = c.tier.pick(1500, 20000);
     let cfg = GenCfg { names: NAMES3, avoid_through_link: true, plain_spelling: true, wild: false, handles: false };
@@ -397,6 +397,16 @@ pub fn run(c: &Ctx) {
             if !paths.contains(&p) {
                 paths.push(p);
             }
+        }
+        // unclean absolute spellings (a macro that compares what the call returns with the path as given, instead of
+        // with the resolved one, fails on a state that satisfies it): a creatable missing path, a missing child of a
+        // directory, an existing entry
+        paths.push("/zz/../zy".into());
+        if let Some(d) = tree.nodes.keys().find(|k| tree.kind(k) == Some(Kind::Dir) && k.as_str() != "/") {
+            paths.push(format!("{}/x/../new2", d));
+        }
+        if let Some(k) = tree.nodes.keys().find(|k| k.as_str() != "/") {
+            paths.push(format!("{}/zz/../{}", crate::refpath::parent(k).trim_end_matches('/'), base(k)));
         }
         paths.push(String::new());
         let state_id = fp(&format!("{:?}", setup));
